@@ -9,7 +9,10 @@ Not a registered check: a development-time tool.  For every /verif/seeded/<name>
 and prints a table: which check fires on which change.  meta.json's "expect" (list of property ids that
 must fire) is compared with what was observed.
 
-usage: run.py [--tier quick|thorough] [--all-checks] [name ...]
+usage: run.py [--tier quick|thorough] [--all-checks] [--jobs N] [name ...]
+
+--jobs N: N workers, each with its own scratch worktree of /repo (git worktree under /tmp, removed afterwards) and its own fact cache
+(DMNTK_REPO / VERIF_CACHE); inside a worker the checks of one seeded change run concurrently (they only read the fact base).
 """
 import json
 import os
@@ -19,7 +22,7 @@ import sys
 import tempfile
 
 VERIF = os.path.dirname(os.path.dirname(os.path.abspath(__file__)))
-REPO = "/repo"
+REPO = os.environ.get("DMNTK_REPO", "/repo")
 
 
 def sh(*a, **k):
@@ -35,6 +38,7 @@ def main():
     args = sys.argv[1:]
     tier = "quick"
     allc = False
+    jobs = 0
     names = []
     while args:
         a = args.pop(0)
@@ -42,11 +46,15 @@ def main():
             tier = args.pop(0)
         elif a == "--all-checks":
             allc = True
+        elif a == "--jobs":
+            jobs = int(args.pop(0))
         else:
             names.append(a)
     sdir = os.path.join(VERIF, "seeded")
     if not names:
         names = sorted(d for d in os.listdir(sdir) if os.path.exists(os.path.join(sdir, d, "patch.diff")))
+    if jobs > 1:
+        return parallel(names, jobs, tier, allc)
     if sh("git", "-C", REPO, "status", "--porcelain", "--untracked-files=no").stdout.strip():
         print("refusing: /repo has local modifications")
         return 2
@@ -65,10 +73,13 @@ def main():
                 continue
             try:
                 fired = {}
-                todo = pids if (allc or meta.get("benign")) else sorted(set([meta["property"]] + meta.get("expect", [])))
-                for pid in todo:
-                    env = dict(os.environ, VERIF_OUT=out)
-                    c = sh("python3", os.path.join(VERIF, "engine", "check.py"), pid, tier, env=env)
+                todo = pids if (allc or meta.get("benign")) else [q for q in sorted(set([meta["property"]] + meta.get("expect", []))) if q in pids]
+                env = dict(os.environ, VERIF_OUT=out)
+                # the first check extracts the facts (under a lock); the others wait for it and then only read
+                from concurrent.futures import ThreadPoolExecutor
+                with ThreadPoolExecutor(max_workers=int(os.environ.get("SELFTEST_CHECK_JOBS", "6"))) as ex:
+                    done = list(ex.map(lambda pid: (pid, sh("python3", os.path.join(VERIF, "engine", "check.py"), pid, tier, env=env)), todo))
+                for pid, c in done:
                     if c.returncode == 1:
                         rep = json.load(open(os.path.join(out, "reports", "%s-%s.json" % (pid, tier))))
                         fired[pid] = sorted({"%s:%s" % (v["rule"], v["key"]) for v in rep["violations"]})
@@ -76,6 +87,7 @@ def main():
                         fired[pid] = ["<check exited %d: %s>" % (c.returncode, c.stdout.strip().splitlines()[-1:] )]
             finally:
                 sh("git", "-C", REPO, "checkout", "--", ".")
+                sh("git", "-C", REPO, "clean", "-fdq")     # files a patch added
             results[name] = fired
             if meta.get("benign"):
                 status = "silent" if not fired else ("ALARM (accepted: %s)" % meta["accepted_alarm"][:60] if meta.get("accepted_alarm") else "FALSE ALARM")
@@ -97,9 +109,60 @@ def main():
             sys.stdout.flush()
     finally:
         sh("git", "-C", REPO, "checkout", "--", ".")
+        sh("git", "-C", REPO, "clean", "-fdq")
         shutil.rmtree(out, ignore_errors=True)
-    json.dump(results, open(os.path.join(VERIF, "selftest", "last_results.json"), "w"), indent=1, sort_keys=True)
+    if os.environ.get("SELFTEST_RESULTS"):
+        json.dump(results, open(os.environ["SELFTEST_RESULTS"], "w"), indent=1, sort_keys=True)
+    else:
+        json.dump(results, open(os.path.join(VERIF, "selftest", "last_results.json"), "w"), indent=1, sort_keys=True)
     return 1 if bad else 0
+
+
+def parallel(names, jobs, tier, allc):
+    import threading
+    root = tempfile.mkdtemp(prefix="verif-st-")
+    outs = {}
+
+    def worker(k):
+        wt = os.path.join(root, "repo%d" % k)
+        sh("git", "-C", "/repo", "worktree", "add", "--detach", wt)
+        mine = names[k::jobs]
+        env = dict(os.environ, DMNTK_REPO=wt, VERIF_CACHE=os.path.join(root, "cache%d" % k), SELFTEST_RESULTS=os.path.join(root, "res%d.json" % k))
+        cmd = ["python3", os.path.abspath(__file__), "--tier", tier] + (["--all-checks"] if allc else []) + mine
+        try:
+            outs[k] = sh(*cmd, env=env) if mine else None
+        finally:
+            sh("git", "-C", "/repo", "worktree", "remove", "--force", wt)
+    ts = [threading.Thread(target=worker, args=(k,)) for k in range(jobs)]
+    for t in ts:
+        t.start()
+    for t in ts:
+        t.join()
+    results = {}
+    lines = []
+    rc = 0
+    for k in range(jobs):
+        if outs.get(k) is None:
+            continue
+        rc |= 1 if outs[k].returncode else 0
+        lines += outs[k].stdout.splitlines()
+        rp = os.path.join(root, "res%d.json" % k)
+        if os.path.exists(rp):
+            results.update(json.load(open(rp)))
+    # regroup the table by change name
+    blocks, cur = [], None
+    for ln in lines:
+        if ln.startswith("      ") and cur is not None:
+            cur.append(ln)
+        else:
+            cur = [ln]
+            blocks.append(cur)
+    for b in sorted(blocks, key=lambda b: b[0]):
+        print("\n".join(b))
+    json.dump(results, open(os.path.join(VERIF, "selftest", "last_results.json"), "w"), indent=1, sort_keys=True)
+    shutil.rmtree(root, ignore_errors=True)
+    sh("git", "-C", "/repo", "worktree", "prune")
+    return rc
 
 
 if __name__ == "__main__":
